@@ -80,7 +80,8 @@ func vfRunReportHistory(rep *verifkit.Report, cases []vfRow, rng *verifkit.Rand)
 		case vfKAssertFail:
 			res.assert(names[i], tcs[i], &conformancev1.ClientResponseResult{Payloads: []*conformancev1.ConformancePayload{{Data: []byte("y")}}})
 		case vfKClientErr:
-			res.failed(names[i], &conformancev1.ClientErrorResult{Message: "client says no"})
+			// a client-reported error is a failure whatever its text is (also none at all)
+			res.failed(names[i], &conformancev1.ClientErrorResult{Message: []string{"client says no", "", " \n\t ", "multi\nline\n\nmessage"}[(i+len(cases))%4]})
 		case vfKSetupErr:
 			if i%2 == 0 {
 				res.setOutcome(names[i], true, errors.New("server process terminated unexpectedly"))
